@@ -114,7 +114,11 @@ func (m *MainLoop) run(ctx context.Context) {
 			shutdown = true
 
 		case message := <-m.messagesChannel:
-			parsedMessage := interfaces.ToConsensusMessage(message)
+			parsedMessage, err := parseConsensusMessage(message)
+			if err != nil {
+				m.logger.Info("LHFLOW LHMSG MAINLOOP IGNORING MESSAGE - %s", err)
+				continue
+			}
 
 			m.logger.Debug("LHFLOW LHMSG MAINLOOP RECEIVED %v from %v for H=%d V=%d", parsedMessage.MessageType(), parsedMessage.SenderMemberId(), parsedMessage.BlockHeight(), parsedMessage.View())
 
@@ -181,6 +185,31 @@ func (m *MainLoop) run(ctx context.Context) {
 	m.logger.Info("LHFLOW LHMSG MAINLOOP DONE STOPPED LISTENING, SHUTDOWN END")
 }
 
+// parseConsensusMessage parses a raw message received from the network. The content is untrusted:
+// bytes that do not parse into one of the known message types are reported as an error instead of
+// panicking (a panic in the main loop shuts down the worker contexts for good).
+func parseConsensusMessage(message *interfaces.ConsensusRawMessage) (parsedMessage interfaces.ConsensusMessage, err error) {
+	defer func() {
+		if r := recover(); r != nil {
+			parsedMessage, err = nil, errors.Errorf("malformed consensus message: %v", r)
+		}
+	}()
+	if message == nil {
+		return nil, errors.New("nil consensus message")
+	}
+	parsedMessage = interfaces.ToConsensusMessage(message)
+	if parsedMessage == nil {
+		return nil, errors.New("unknown consensus message type")
+	}
+	// access the fields used for logging and routing, so that truncated headers are rejected here
+	parsedMessage.MessageType()
+	parsedMessage.InstanceId()
+	parsedMessage.SenderMemberId()
+	parsedMessage.BlockHeight()
+	parsedMessage.View()
+	return parsedMessage, nil
+}
+
 func (m *MainLoop) sendElectionMessageNonBlocking(ctx context.Context, trigger *interfaces.ElectionTrigger) {
 	elChannel := m.worker.electionChannel
 	bufferSize := cap(elChannel)
@@ -224,7 +253,12 @@ func (m *MainLoop) sendUpdateMessageNonBlocking(ctx context.Context, blockWithPr
 }
 
 // Used by orbs-network-go
-func GetMemberIdsFromBlockProof(blockProofBytes []byte) ([]primitives.MemberId, error) {
+func GetMemberIdsFromBlockProof(blockProofBytes []byte) (memberIds []primitives.MemberId, err error) {
+	defer func() {
+		if r := recover(); r != nil { // malformed proof bytes
+			memberIds, err = nil, errors.Errorf("GetMemberIdsFromBlockProof: malformed blockProof: %v", r)
+		}
+	}()
 	if blockProofBytes == nil || len(blockProofBytes) == 0 {
 		return nil, errors.Errorf("GetMemberIdsFromBlockProof: nil blockProof - cannot deduce members locally")
 	}
